@@ -1,6 +1,7 @@
 import Percival.Proofs.NetbufStep
 import Percival.Proofs.NetbufRead
 import Percival.Proofs.NetbufWrite
+import Percival.Proofs.NetbufMonSound
 /-!
 # C07 — buffered reader and writer preserve the byte stream exactly and in order
 
@@ -353,5 +354,52 @@ example :
     let outs := (runOps {} ops).2.map Out.ans
     (ops.zip outs).foldl (fun (acc : Spec.NetbufMon.St × Bool) p =>
       let r := monStep acc.1 p.1 p.2; (r.1, acc.2 && r.2.isNone)) ({}, true) |>.2 = true := by decide +kernel
+
+/-! ## The monitor accepts the model
+
+(The remark above was written before the following was proved; it is kept because the file is append-only.)
+`Proofs/NetbufMonSound.lean` carries the relation of `reader_refines` (`Proofs.NetbufRead.Rel`) and the invariant of
+`writer_refines` (`Proofs.NetbufWrite.Inv`, `pendingData`) through `spinR` / `spinW` together with the monitor's
+bookkeeping: the monitor's `items` and the model's buffer window followed by the scripted kernel queue are the same
+stream of bytes and end/error marks; the monitor's `pending` is what the writer model still has to send. -/
+
+open Percival.Model.NetbufStep Percival.Spec.NetbufMon in
+/-- **Monitor soundness for the model (no false alarm).**  For every sequence of protocol lines — any interleaving
+of waits, `r_loop` programs, peeks, consumes, cancels, scripted `recv` / `send` answers of any sizes, reserves,
+writes and `spin`s — the monitor `pmodel netbufmon` runs (`monStep`) accepts every answer the model `pmodel netbuf`
+runs (`stepOp`) gives.  So code that behaves like the model of which `reader_refines` … `writer_requests_nonempty`
+are proved is never reported, and every report of the monitor is a deviation from that model. -/
+theorem monitor_accepts_model (ops : List Op) :
+    acceptsRun {} (ops.zip ((runOps {} ops).2.map Out.ans)) = true :=
+  (Proofs.NetbufMonSound.run_sound ops {} {} Proofs.NetbufMonSound.sound_init).1
+
+/- not vacuous: the run below has a success callback, an `r_loop` program that consumes and
+   waits again, an end-of-stream status, a partial `send`, and a failing `send`; and the monitor is not a function
+   that accepts everything: the same run with one wrong byte shown, or with a lost failure callback, is rejected. -/
+open Percival.Model.NetbufStep Percival.Spec.NetbufMon in
+example :
+    (runOps {} [.netDeliver [1, 2, 3, 4, 5], .netEof, .rLoop 2 2 3, .wWrite [7, 8, 9], .netAccept 2, .netSendfail,
+        .spin]).2.map Out.ans =
+      [.ok, .ok, .ok, .ok, .ok, .ok,
+       .spin [.succ 5 (.hex [1, 2]), .succ 3 (.hex [3, 4]), .status 1] 1 2 (.hex [7, 8]) 2] ∧
+    acceptsRun {} [(.netDeliver [1, 2, 3, 4, 5], .ok), (.netEof, .ok), (.rLoop 2 2 3, .ok), (.wWrite [7, 8, 9], .ok),
+        (.netAccept 2, .ok), (.netSendfail, .ok),
+        (.spin, .spin [.succ 5 (.hex [1, 2]), .succ 3 (.hex [3, 9]), .status 1] 1 2 (.hex [7, 8]) 2)] = false ∧
+    acceptsRun {} [(.netDeliver [1, 2, 3, 4, 5], .ok), (.netEof, .ok), (.rLoop 2 2 3, .ok), (.wWrite [7, 8, 9], .ok),
+        (.netAccept 2, .ok), (.netSendfail, .ok),
+        (.spin, .spin [.succ 5 (.hex [1, 2]), .succ 3 (.hex [3, 4]), .status 1] 0 2 (.hex [7, 8]) 2)] = false := by
+  decide +kernel
+
+open Percival.Model.NetbufStep in
+/-- **The model never leaves its contract on any protocol run**: no access outside a buffer, no assertion of the
+library, no contract violation of the layer below, and the fuel of the reader's event loop
+(`loopN + rqWeight rq + 2`) is never exhausted — for every sequence of protocol lines the failure latch stays
+empty (so by `exec_failure_latched` no line `failed …` / `model-fuel` is ever printed by `pmodel netbuf`). -/
+theorem exec_never_fails (ops : List Spec.NetbufMon.Op) : (runOps {} ops).1.bad = none :=
+  (Proofs.NetbufMonSound.run_sound ops {} {} Proofs.NetbufMonSound.sound_init).2
+
+open Percival.Model.NetbufStep Percival.Spec.NetbufMon in
+example : (runOps {} [.rWait 5000, .netDeliver (List.replicate 6000 7), .spin, .rConsume 4999, .rWait 8192, .netEof,
+    .spin]).1.r.buflen = 8192 := by decide +kernel
 
 end Percival.C07
